@@ -257,6 +257,70 @@ def rule_r3(facts, rep, rid="C03-R3"):
                     rep.violation(rid, key, "leaf event pushes (block=%s, inline=%s) but pops (block=%s, inline=%s) in its own arm" % (pb, pi, qb, qi), "%s:%s" % (rd.file, arm.get("ln")))
 
 
+# ------------------------------------------------------------------------------------------ R2b recursion over grown sequences
+
+GROWERS = {"insert", "push", "push_front", "push_back", "extend", "append", "splice", "extend_from_slice", "insert_many"}
+
+
+def rule_r2b(facts, rep, rid="C03-R2b"):
+    """An owned-structure recursion terminates because every recursive call works on a strictly smaller part of the input.  That argument
+    fails when the fn recurses over a *local copy of its children that it has grown first*: the added element is not part of the input, and if
+    it contains the construct that triggers the growth (a note inlined into itself) every level adds it again."""
+    n = 0
+    for f in facts.body_fns():
+        if f.crate not in ("liwe", "iwes", "iwe") or f.kind == "closure" or "::tests::" in f.def_ or "::test::" in f.def_:
+            continue
+        rec_calls = [x for x in fb.calls_in(f.body) if fb.callee(x) == f.def_]
+        if not rec_calls:
+            continue
+        c = ctx(f)
+        for i, call in enumerate(rec_calls):
+            # the sequence the recursion is mapped over: receiver chain of the enclosing `.map(|child| child.f(..))` / the for-loop iterator
+            seq_base = None
+            for p in c.parents(call):
+                if p.get("k") == "closure":
+                    host = c.parent_of.get(id(p))
+                    if host is not None and host.get("k") == "mcall" and host["name"] in ("map", "flat_map", "filter_map", "for_each"):
+                        r = host["recv"]
+                        while r is not None and r.get("k") == "mcall":
+                            r = r["recv"]
+                        while r is not None and r.get("k") in ("addrof", "unary"):
+                            r = r["e"]
+                        seq_base = r
+                    break
+                if p.get("k") == "match" and p.get("src") == "ForLoopDesugar":
+                    for y in fb.walk(p.get("e") or {}):
+                        if y.get("k") == "path" and y.get("res") == "local":
+                            seq_base = y
+                    break
+            if seq_base is None or seq_base.get("k") != "path" or seq_base.get("res") != "local" or "Vec<" not in str(seq_base.get("ty") or ""):
+                continue
+            n += 1
+            lid = seq_base["id"]
+            key = "%s|recursion-over-grown-copy|%d" % (f.def_, i)
+            # parameters handed on unchanged to the recursive call (`new` in `child.f(target, new.clone())`)
+            passed_on = set()
+            for a in call.get("args", []):
+                for at in c.vprov(a):
+                    if at[0] == "param" and at[1] != "self":
+                        passed_on.add(at[1])
+            grown = []
+            for x in fb.walk(f.body):
+                if x.get("k") == "mcall" and x["name"] in GROWERS and x.get("recv") is not None and (x.get("s") or [0])[0] < (call.get("s") or [0])[0] and \
+                        any(y.get("k") == "path" and y.get("res") == "local" and y.get("id") == lid for y in fb.walk(x["recv"])):
+                    # the element added is (a copy of) a parameter that every level receives again: not part of the structure being walked
+                    added = set(at[1] for a in x.get("args", []) for at in c.vprov(a) if at[0] == "param")
+                    if added & passed_on:
+                        grown.append(x)
+            if grown:
+                rep.violation(rid, key, "%s recurses over the local `%s` after adding one of its own arguments to it with `.%s(..)`, and hands the same argument to every level: the "
+                              "recursion also descends into the element it has just added, so its depth is not bounded by the input - if the added value contains what triggers the growth (a note inlined into itself) it never ends "
+                              "(stack overflow, process abort)" % (fb.last2(f.def_), seq_base.get("name"), grown[0]["name"]), loc(f, grown[0]))
+            else:
+                rep.ok(rid, key, "the recursion runs over `%s`, which is not grown before" % seq_base.get("name"), loc(f, call), nontrivial=False)
+    rep.ok(rid, "recursion-over-grown-copy|inventory", "%d recursive map / loop site(s) over a local sequence examined" % n, None, nontrivial=False)
+
+
 def run(facts, rep, tier):
     rep.rule("C03-R1", "Audited panic inventory: every unwrap/expect, explicit panic, index, arithmetic assert and panicking std call reachable from the "
              "input-facing roots is discharged by an enumerated local guard idiom or classified in tables/panics.json (invariant / guarded / benign / finding).")
@@ -269,4 +333,7 @@ def run(facts, rep, tier):
     rep.notes.append("roots: %d (%s ...)" % (len(rts), ", ".join(fb.last2(r) for r in rts[:8])))
     panics.inventory(facts, rep, "C03-R1", rts, floor=150, prop="C03")
     rule_r2(facts, rep)
+    rep.rule("C03-R2b", "Structural recursion runs over the untouched input: a fn that maps itself over a local copy of its children must not have grown that copy before (the added "
+             "element is not bounded by the input; a self-containing insertion recurses forever).")
+    rule_r2b(facts, rep)
     rule_r3(facts, rep)
